@@ -22,7 +22,8 @@ LEVEL = 'exploration'
 RULE = ('Pool of valid version strings from structured generators (leading zeros, ~ chains, ~ at end, '
         'letters vs +/./-, digit/non-digit misalignment, epoch 0/absent/00, revision absent/0; plus ~90 versions with digit runs of '
         '9..31 digits, with and without leading zeros, in upstream / revision / epoch); every ordered '
-        'pair of the pool is compared with all operators.  A pair is non-trivial when the two strings differ '
+        'pair of the pool is compared with all operators; plus objects that were compared and hashed and then given another '
+        'pool value (full_version or component assignments) and compared again.  A pair is non-trivial when the two strings differ '
         'and share a common prefix of >= 1 character (decided inside the algorithm, not on the first character).')
 ASSUMPTIONS = ['vp.models.dpkgver is a faithful port of dpkg lib/dpkg/version.c (cross-checked against the dpkg binary in the thorough tier)',
                'Version is NativeVersion (python-apt absent); the class exercised is recorded in coverage.version_class',
@@ -36,9 +37,9 @@ ANCHORS = ['debian.debian_support:NativeVersion._compare',
 MUST_REACH = ['debian.debian_support:NativeVersion._compare', 'debian.debian_support:version_compare',
               'debian.debian_support:BaseVersion.__hash__']
 FLOORS = {'quick': {'nontrivial': 20000, 'monitors': {'M.pair': 100000, 'M.hash': 200, 'M.triple': 20000},
-                    'counters': {'pair:long-digit-run': 25000, 'pair:long-digit-run-both': 1400}},
+                    'counters': {'pair:long-digit-run': 25000, 'pair:long-digit-run-both': 1400, 'rebind:value-replaced': 1500}},
           'thorough': {'nontrivial': 500000, 'monitors': {'M.pair': 4000000, 'M.hash': 1800, 'M.triple': 500000},
-                       'counters': {'pair:long-digit-run': 150000, 'pair:long-digit-run-both': 1400}}}
+                       'counters': {'pair:long-digit-run': 150000, 'pair:long-digit-run-both': 1400, 'rebind:value-replaced': 60000}}}
 
 POOL = {'quick': 400, 'thorough': 2800}
 TRIPLES = {'quick': 120000, 'thorough': 3000000}
@@ -150,6 +151,12 @@ def cases(ctx):
     for i in range(0, len(ordered) - w + 1):
         if ctx.mine(i):
             yield {'kind': 'window', 'vs': ordered[i:i + w]}
+    # objects that have already been compared / hashed and are then given another value (full_version or a component):
+    # the relation is about the value the object holds NOW (nothing remembered from the earlier value)
+    r = ctx.rng('rebind')
+    for i in range(ctx.size(1600, 60000)):
+        seq = [r.choice(pool) for _ in range(r.randint(2, 4))]
+        yield {'kind': 'rebind', 'seq': seq, 'bs': [r.choice(pool) for _ in range(4)] + r.sample(seq, 2)}
     r = ctx.rng('triples')
     for i in range(ctx.size(TRIPLES['quick'], TRIPLES['thorough']) // 50):
         yield {'kind': 'triples', 'vs': [r.choice(pool) for _ in range(52)]}
@@ -217,6 +224,31 @@ def run_case(ctx, case):
             check_pair(ctx, a, b, va, ds.Version(b))
     elif kind == 'pair':
         check_pair(ctx, case['a'], case['b'], ds.Version(case['a']), ds.Version(case['b']))
+    elif kind == 'rebind':
+        seq, bs = case['seq'], case['bs']
+        obj = ds.Version(seq[0])
+        for n, cur in enumerate(seq):
+            if n:
+                # give the same object its next value, by whole string or component-wise
+                nxt = ds.Version(cur)
+                if n % 2:
+                    obj.full_version = cur
+                else:
+                    try:
+                        obj.epoch, obj.debian_revision, obj.upstream_version = None, None, '0'
+                        obj.upstream_version = nxt.upstream_version
+                        obj.debian_revision = nxt.debian_revision
+                        obj.epoch = nxt.epoch
+                    except ValueError:
+                        obj.full_version = cur
+                if str(obj) != cur:
+                    obj.full_version = cur
+                ctx.count('rebind:value-replaced')
+            hash(obj)
+            for b in bs:
+                check_pair(ctx, cur, b, obj, ds.Version(b))
+                vb = ds.Version(b)
+                check_pair(ctx, b, cur, vb, obj)
     elif kind == 'window':
         for t in itertools.permutations(case['vs'], 3):
             check_triple(ctx, *t)
